@@ -22,7 +22,8 @@ ASSUMPTIONS = ["no dangling symlinks/FIFOs/unreadable files (the statement lists
                "stderr is unconstrained", "junk classification per mode uses the decoder's own verdict on the single file"]
 
 MODES_FULL = [["-a"], ["-a", "-x"], ["-j"]]
-MODES_SUMMARY = [["-l"], ["-l", "-x"], ["--plid"], ["--src"], ["--src-exclude"], ["-l", "-r"], ["--src", "-x"], ["--src-exclude", "-x"]]
+MODES_SUMMARY = [["-l"], ["-l", "-x"], ["--plid"], ["--src"], ["--src-exclude"], ["-l", "-r"], ["--src", "-x"], ["--src-exclude", "-x"],
+                 ["--plid", "-x"], ["--plid", "-x", "-r"]]
 MODES_COUNT = [["-n"]]
 
 
@@ -37,10 +38,10 @@ def plan(tier, seed):
 def minimums(tier):
     return {"relation.checked": 1200, "junk.files": 8000, "junk.truncation": 1000, "junk.corruption": 4000,
             "junk.edit": 300, "junk.hostile-json": 50, "mode.-a": 100, "mode.-l": 100, "mode.-n": 100, "mode.-j": 100, "mode.--plid": 30,
-            "mode.--src": 30, "mode.--src-exclude": 30, "mode.-a -x": 30, "mode.-l -x": 30, "sub.relations_checked": 40,
+            "mode.--src": 30, "mode.--src-exclude": 30, "mode.-a -x": 30, "mode.-l -x": 30, "mode.--plid -x": 30, "sub.relations_checked": 40,
             "junk.nested_dir": 100, "junk.symlink_to_dir": 50, "junk.dir_named_with_extension": 30,
             "mode.with_extension_filter": 60, "sub.good_pel_with_unencodable_text": 4,
-            "junk.sibling_of_good_pel": 150, "sub.sibling_junk": 8}
+            "junk.sibling_of_good_pel": 150, "sub.sibling_junk": 8, "junk.next_to_the_looked_up_pel": 300}
 
 
 def classify(data, cls):
@@ -264,6 +265,14 @@ def run(spec, ctx):
                 dirty.add(dirs.Entry(nm, None, dta, junk=True))
                 ctx.count("junk.files")
                 ctx.count("junk." + t)
+            if c == "summary" and good:
+                # undecodable files that sort DIRECTLY after (and before) the PEL the look-ups will ask for: an empty file and
+                # a copy cut inside its headers
+                for nm, dta in ((target.name + "0", b""), (target.name + "~", target.data[:rng.choice([20, 47, 60])]),
+                                (target.name[:-1] + chr(max(33, ord(target.name[-1]) - 1)) + "~", target.data[:55])):
+                    if classify(dta, "summary") and not os.path.lexists(os.path.join(dirty.root, nm)) and "/" not in nm:
+                        dirty.add(dirs.Entry(nm, None, dta, junk=True))
+                        ctx.count("junk.next_to_the_looked_up_pel")
             if c == "full":
                 # siblings of the good PELs as junk: the same log with its reference code moved to another SRC type
                 # (BD <-> BC: same component, other parser routing) and cut short after the SRC - rejected by the full
